@@ -72,6 +72,7 @@ def _collect(nodeid: str, probe: C07Probe):
     lib = probe.attributed_past_emissions()
     st["ignored_past"] += len(probe.c07_past) - len(lib)
     explained = {r["event_id"] for r in probe.c07_past if r.get("event_id") is not None}
+    explained_types = {r["event_type"] for r in probe.c07_past if r.get("event_id") is None}
     for r in lib:
         key = (r["component"], "past-emission", r["event_type"])
         v = st["violations"].get(key)
@@ -94,6 +95,8 @@ def _collect(nodeid: str, probe: C07Probe):
         msg = rec.get("msg", "")
         eid = msg.rsplit("event_id=", 1)[-1].strip() if "event_id=" in msg else None
         if eid in explained:
+            continue
+        if eid in (None, "None") and norm_type(rec.get("event_type")) in explained_types:
             continue
         last = rec.get("last_emitter") or ("?", "", None)
         if not is_library_module(last[1] or ""):
